@@ -291,6 +291,7 @@ def c02(run):
         opts.append("regular %d %s" % (DEFAULT_MASK, mat_tokens(m, n, e)))
     run.batch("option-product", opts, "asan")
     run.batch("structured", structured_ops(rng, 1500 if quick else 20000, kinds=("regular", "tusigned")), "plain")
+    run.batch("regular-by-construction", regular_constructed_ops(rng, 60000 if quick else 600000), "plain")
     return dict(rule="structured: representations of R10/R12 supports and delta-sums of graphic and cographic pieces (regular by Seymour's "
                 "theorem, neither graphic nor cographic in general, beyond the oracle's size: verdict by construction, and equal to the TU "
                 "verdict of the library's Camion signing); exhaustive: all 0/1 matrices up to 4x4 (thorough: up to 4x5/5x4) with default parameters; seeded 5x5..6x6 0/1 matrices "
@@ -1145,6 +1146,7 @@ def tree_ops(run):
             big.append("regular %d %s" % (mk, mat_tokens(m, n, e)))
     run.batch("sums-of-blocks", big, "asan")
     run.batch("structured-with-trees", structured_ops(rng, 500 if quick else 8000, kinds=("tu", "regular"), want_bits=WANT_TREE), "plain")
+    run.batch("regular-by-construction-with-trees", regular_constructed_ops(rng, 3000 if quick else 40000, want_bits=WANT_TREE), "plain")
     hist = []
     for _ in range(300 if quick else 6000):
         ternary = rng.randint(0, 1)
@@ -1383,6 +1385,8 @@ def c10_instance(rng, signed, size):
     """a matrix assembled from network pieces, R10/R12 and 1-/2-sums of those, optionally corrupted, lines shuffled"""
     def piece():
         x = rng.random()
+        if not signed and x < 0.15:
+            return regular_by_construction(rng, 3, rng.randint(4, 7), 1)
         if x < 0.70:
             return net_piece(rng, signed, 3, max(4, size))
         if x < 0.80:
@@ -1591,9 +1595,111 @@ def y_operand(rng, lo, hi):
         return rows, ra, rb, cz
 
 
+def named_graph(rng):
+    """(numNodes, edges) of a 3-connected graph: K5, K6, K3,3, Petersen, Wagner, random cubic or random dense"""
+    k = rng.random()
+    if k < 0.2:
+        n = rng.choice((5, 5, 6)); return n, [(i, j) for i in range(n) for j in range(i + 1, n)]
+    if k < 0.35:
+        return 6, [(i, 3 + j) for i in range(3) for j in range(3)]
+    if k < 0.45:
+        return 10, [(i, (i + 1) % 5) for i in range(5)] + [(5 + i, 5 + (i + 2) % 5) for i in range(5)] + [(i, 5 + i) for i in range(5)]
+    if k < 0.55:
+        return 8, [(i, (i + 1) % 8) for i in range(8)] + [(i, i + 4) for i in range(4)]       # Wagner graph (Moebius ladder)
+    if k < 0.8:
+        while True:      # random cubic graph by the pairing model
+            n = rng.choice((6, 8, 8, 10))
+            pts = [v for v in range(n) for _ in range(3)]
+            rng.shuffle(pts)
+            es = [(pts[2 * i], pts[2 * i + 1]) for i in range(len(pts) // 2)]
+            if all(a != b for a, b in es) and len(set(frozenset(e) for e in es)) == len(es):
+                return n, es
+    n = rng.randint(5, 7)
+    while True:
+        es = [(i, j) for i in range(n) for j in range(i + 1, n) if rng.random() < 0.7]
+        deg = [sum(1 for e in es if v in e) for v in range(n)]
+        if min(deg) >= 3:
+            return n, es
+
+
+def tree_with(rng, nn, edges, first, last):
+    """spanning tree (edge indices) by union-find: edges `first` are tried first, edges `last` at the end"""
+    parent = list(range(nn))
+    def find(a):
+        while parent[a] != a:
+            parent[a] = parent[parent[a]]; a = parent[a]
+        return a
+    mid = [i for i in range(len(edges)) if i not in first and i not in last]
+    rng.shuffle(mid)
+    forest = []
+    for i in list(first) + mid + list(last):
+        a, b = find(edges[i][0]), find(edges[i][1])
+        if a != b:
+            parent[a] = b; forest.append(i)
+    return forest
+
+
+def triangle_operand(rng):
+    """delta-sum operand [[A,a,a],[c^T,0,1]] (up to line order) from a 3-connected graph with a triangle one of whose edges is a tree
+    edge: rows, special row, column with 0 there, column with 1 there"""
+    while True:
+        nn, edges = named_graph(rng)
+        es = {frozenset(e): i for i, e in enumerate(edges)}
+        tris = [(a, b, c) for a in range(nn) for b in range(a + 1, nn) for c in range(b + 1, nn)
+                if frozenset((a, b)) in es and frozenset((b, c)) in es and frozenset((a, c)) in es]
+        if not tris:
+            continue
+        tri = list(rng.choice(tris)); rng.shuffle(tri)
+        u, v, w = tri
+        t, e, f = es[frozenset((u, v))], es[frozenset((u, w))], es[frozenset((w, v))]
+        forest = tree_with(rng, nn, edges, [t], [e, f])
+        if len(forest) != nn - 1 or e in forest or f in forest or t not in forest:
+            continue
+        fs = set(forest)
+        cof = [i for i in range(len(edges)) if i not in fs]
+        rng.shuffle(cof); fo = list(forest); rng.shuffle(fo)
+        rows = rows_of(len(fo), len(cof), cycle_matrix(nn, edges, fo, cof))
+        r, c1, c2 = fo.index(t), cof.index(e), cof.index(f)
+        if rows[r][c1] == rows[r][c2] or any(rows[i][c1] != rows[i][c2] for i in range(len(fo)) if i != r):
+            continue
+        ca, cb = (c1, c2) if rows[r][c1] == 0 else (c2, c1)
+        return rows, r, ca, cb
+
+
+def triad_operand(rng):
+    """transposed: delta-sum operand from the dual of a 3-connected graph with a node of degree 3 two of whose edges are tree edges"""
+    while True:
+        nn, edges = named_graph(rng)
+        deg3 = [v for v in range(nn) if sum(1 for e in edges if v in e) == 3]
+        if not deg3:
+            continue
+        w = rng.choice(deg3)
+        inc = [i for i, e in enumerate(edges) if w in e]
+        rng.shuffle(inc)
+        x, y, z = inc
+        forest = tree_with(rng, nn, edges, [x, y], [z])
+        if len(forest) != nn - 1 or z in forest or x not in forest or y not in forest:
+            continue
+        fs = set(forest)
+        cof = [i for i in range(len(edges)) if i not in fs]
+        rng.shuffle(cof); fo = list(forest); rng.shuffle(fo)
+        rows = rows_of(len(fo), len(cof), cycle_matrix(nn, edges, fo, cof))
+        rx, ry, cz = fo.index(x), fo.index(y), cof.index(z)
+        if rows[rx][cz] == rows[ry][cz] or any(rows[rx][j] != rows[ry][j] for j in range(len(cof)) if j != cz):
+            continue
+        ra, rb = (rx, ry) if rows[rx][cz] == 0 else (ry, rx)
+        return [list(c) for c in zip(*rows)], cz, ra, rb
+
+
 def delta_piece(rng, lo, hi):
-    """0/1 operand of a delta-sum, graphic or cographic: rows, special row, column with 0 / with 1 in the special row"""
-    if rng.random() < 0.5:
+    """0/1 operand of a delta-sum: graphic with a triangle or cographic with a triad, from 3-connected (mostly non-planar) graphs,
+    or (less often) from random sparse graphs: rows, special row, column with 0 / with 1 in the special row"""
+    k = rng.random()
+    if k < 0.4:
+        return triangle_operand(rng)
+    if k < 0.8:
+        return triad_operand(rng)
+    if k < 0.9:
         return delta_operand(rng, lo, hi)
     rows, ra, rb, cz = y_operand(rng, lo, hi)
     return [list(c) for c in zip(*rows)], cz, ra, rb
@@ -1609,16 +1715,30 @@ def py_delta_sum(A, r1, ca, cb, B, r2, cc, cd):
 
 
 def regular_by_construction(rng, lo, hi, depth):
-    """0/1 matrix that is regular by Seymour's theorem: iterated delta-sums of graphic and cographic pieces (in general neither
-    graphic nor cographic), in a random representation"""
-    A, r1, ca, cb = delta_piece(rng, lo, hi)
-    M = A
-    for _ in range(depth):
+    """0/1 matrix that is regular by Seymour's theorem: delta-sum of a graphic and a cographic piece built from 3-connected, mostly
+    non-planar graphs (so the sum is in general 3-connected and neither graphic nor cographic); sometimes two pieces of one kind"""
+    if rng.random() < 0.75:
+        first, second = (triangle_operand, triad_operand) if rng.random() < 0.5 else (triad_operand, triangle_operand)
+        A, r1, ca, cb = first(rng)
+        B, r2, cd, cc = second(rng)
+    else:
+        A, r1, ca, cb = delta_piece(rng, lo, hi)
         B, r2, cd, cc = delta_piece(rng, lo, hi)
-        M = py_delta_sum(A, r1, ca, cb, B, r2, cc, cd)
-        # to continue, the result would need a new triangle; one level of nesting is produced by re-deriving an operand below
-        break
-    return M
+    return py_delta_sum(A, r1, ca, cb, B, r2, cc, cd)
+
+
+def regular_constructed_ops(rng, count, want_bits=0, lo=3, hi=7):
+    """regular-by-construction 0/1 matrices (delta-sums of graphic and cographic pieces, in general 3-connected and neither graphic
+    nor cographic) in random representations: the 3-separation search of the decomposition has to succeed for every line order"""
+    ops = []
+    strategies = [strategy(i) for i in range(5)]
+    while len(ops) < count:
+        M = regular_by_construction(rng, lo, rng.randint(lo + 1, hi), 1)
+        M = represent(rng, M, False, rng.choice((0, 0, 1, 2, 3)))
+        m, n = len(M), len(M[0])
+        mask = ((DEFAULT_MASK | rng.choice(strategies) | want_bits) & ~3) & ~B_TERNARY
+        ops.append("@want=yes regular %d %s" % (mask, mat_tokens(m, n, flat_of(M))))
+    return ops
 
 
 def structured_ops(rng, count, kinds=("tu", "regular", "tusigned", "tuall"), want_bits=0, small_only=False):
